@@ -35,7 +35,8 @@ def gen_case(rng, tier):
     if r < 0.3:
         gene = {"kind": "toy", "genome": rng.choice(["hg19", "hg38"])}
     elif r < 0.9 or not cfg["shipped"]:
-        gene = {"kind": "world", "world": SL.gen_stage_world(rng, pseudo=rng.random() < 0.9, deletion=rng.random() < 0.8)}
+        gene = {"kind": "world", "world": SL.gen_stage_world(rng, pseudo=rng.random() < 0.9, deletion=rng.random() < 0.8,
+                                                             custom_del=rng.random() < 0.4)}
     else:
         gene = {"kind": "shipped", "name": rng.choice(cfg["shipped"]), "genome": "hg19"}
     return {"gene": gene, "seed": rng.randint(0, 10**9), "gap": rng.choice([0, 0, 0.1, 0.3]),
@@ -295,9 +296,15 @@ def run_case(case, seg, viol, stats, sample):
                "gap": case["gap"], "fusion_support": fs}
     ev = Evaluator(gene, profile, gene.cn_configs, max_cn, rc, fs)
 
+    table0 = canon.gene(gene)["cn_configs"]
+
     def call():
-        sols = CN.solve_cn_model(gene, profile, copy.deepcopy(gene.cn_configs), max_cn, dict(rc), "cbc",
-                                 fusion_support=fs)
+        # the configuration table handed in is the gene's own, exactly as aldy's test-suite calls it
+        sols = CN.solve_cn_model(gene, profile, gene.cn_configs, max_cn, dict(rc), "cbc", fusion_support=fs)
+        now = canon.gene(gene)["cn_configs"]
+        if now != table0 and not any(v["clause"].startswith("structure stage modified") for v in viol):
+            viol.append({"clause": "structure stage modified the configuration table it was given",
+                         "detail": dict(detail0, diff=canon.first_diff(table0, now))})
         return sols
 
     def per_solution(sols, mode):
